@@ -4,6 +4,7 @@ from harness.lib import op
 
 MODEL_RT = set("SLCPEGFOU")
 ERRS = {"NotUniqueError", "NotFoundError", "VersionError"}
+MODEL_EDITS = True     # rm(line) / disconnect / set and delete of a tag have model counterparts (GfaModel/Edit.lean)
 
 
 def supported_add(text):
@@ -32,6 +33,23 @@ def history_ops(case, observe=("obs",)):
         elif kind == "rename" and not str(step[1]).startswith("@") and step[2] not in ("*", "") and \
                 not any(c in step[2] for c in " ,\t\n") and step[1] not in ("*", ""):
             mop = op("g.rename", step[1], step[2])
+        elif kind in ("rmline", "disconnect", "settag", "deltag") and MODEL_EDITS:
+            # a line given as an object is designated to the model by its written form
+            tr = lib.outcome(H.resolve, g, H.step_target(step))
+            line = tr[1] if tr[0] == "ok" else None
+            if line is None or line.virtual or line.record_type not in MODEL_RT:
+                break
+            tw = lib.outcome(lib.wl, line)
+            if tw[0] != "ok" or "# INVALID" in tw[1] or "\n" in tw[1]:
+                break
+            if kind in ("rmline", "disconnect"):
+                mop = op("g.rmtext", tw[1])
+            elif step[2] == "ID" or not isinstance(step[2], str) or len(step[2]) != 2:
+                break          # the ID tag is the identifier of a link: a rename (not modelled as a tag edit)
+            elif kind == "deltag" or step[3] is None:
+                mop = op("g.deltag", tw[1], step[2])
+            else:
+                mop = None     # needs the written tag: after the call
         else:
             break
         if kind == "add":
@@ -40,6 +58,17 @@ def history_ops(case, observe=("obs",)):
             if pre[0] != "ok":
                 break
         r = H.apply_step(g, step)
+        if mop is None:
+            # the text of the tag is the library's (its encoding is C20's business); its place in the line, and
+            # that nothing else changes, is the model's
+            if r[0] != "ok":
+                break
+            ft = lib.outcome(line.field_to_s, step[2], True)
+            if ft[0] != "ok" or not isinstance(ft[1], str) or not ft[1].startswith(step[2] + ":"):
+                break
+            mop = op("g.settag", tw[1], step[2], ft[1])
+        elif kind in ("settag", "deltag") and r[0] != "ok":
+            break
         if r[0] == "ok":
             e = "ok"
         elif r[0] == "gerr" and r[1] in ERRS:
